@@ -15,7 +15,7 @@ BUDGET = {"quick": 2600, "thorough": 70000}
 REQUIRED = ["judged:shared-edge-sequences", "judged:anti-aligned-shared-edge", "judged:preserve-start/end",
             "judged:preserve-through-flipped-block", "judged:multi-section", "judged:simpleGrading-four-wires-equal",
             "judged:file-vs-hooked-state", "kind:edgeGrading", "kind:simpleGrading", "judged:sandwich-family", "judged:assembly-with-arc-edges",
-            "history:write-twice", "history:assemble-grade-write", "unit:2e-06", "unit:0.001", "judged:arc-defined-by-the-first-block-only"]
+            "history:write-twice", "history:assemble-grade-write", "history:write-move-write", "unit:2e-06", "unit:0.001", "judged:arc-defined-by-the-first-block-only"]
 MIN_KEYS = 40
 RULE = (
     "jittered lattice assemblies (all edge lengths distinct), 24 orientations per block, exactly one chopped block per "
@@ -124,7 +124,7 @@ def gen_case(ctx):
     if case["arcs"] and rng.random() < 0.5:
         case["arcs_by"] = "first"
     # history on the long-lived mesh: the judged file is the one written last
-    case["history"] = rng.choices(["write", "write-twice", "assemble-grade-write"], [0.6, 0.25, 0.15])[0]
+    case["history"] = rng.choices(["write", "write-twice", "assemble-grade-write", "write-move-write"], [0.5, 0.2, 0.1, 0.2 if not case["arcs"] else 0.0])[0]
     # model unit: the same model built in millimetres / micrometres / tens of metres
     unit = rng.choices([1.0, 1e-3, 2e-6, 40.0], [0.7, 0.1, 0.1, 0.1])[0]
     if unit != 1.0:
@@ -168,7 +168,27 @@ def run_case(ctx, case):
     history = case.get("history", "write")
     ctx.count(f"history:{history}")
     ctx.count(f"unit:{case.get('unit', 1.0):g}")
-    if history == "write-twice":
+    if history == "write-move-write":
+        # the mesh is written, its vertices are moved through the API (a smooth, non-affine map: parallel edges that were equal
+        # become unequal), and it is written again: the judged file is the second one, on the moved geometry
+        import copy
+
+        got, err = util.write_outcome(mesh, path)
+        if got == "success":
+            allp = np.array([p for blk in case["blocks"] for p in blk["pts"]], dtype=float)
+            c0, ext = allp.mean(axis=0), float(np.max(np.ptp(allp, axis=0))) or 1.0
+
+            def warp(p):
+                q = (np.asarray(p, dtype=float) - c0) / ext
+                return np.asarray(p, dtype=float) + ext * 0.35 * np.array([q[1] * q[2], q[0] * q[2] * 0.7, -q[0] * q[1] * 0.5])
+
+            for v in mesh.vertices:
+                v.move_to(list(warp(v.position)))
+            case = copy.deepcopy(case)
+            for blk in case["blocks"]:
+                blk["pts"] = [list(warp(p)) for p in blk["pts"]]
+            got, err = util.write_outcome(mesh, path)
+    elif history == "write-twice":
         got, err = util.write_outcome(mesh, path)
         if got == "success":
             got, err = util.write_outcome(mesh, path)
